@@ -110,7 +110,25 @@ def main():
         if not c.lens:
             continue
         if c.error:
+            # no model of this wiring (e.g. a restructured stage the network generator does not recognise): exit 2 for the
+            # model - but what the REAL runs show against the property's arithmetic is a verdict of its own
             machinery.append("%s: %s" % (c.key(), c.error))
+            for lv in c.lens:
+                real = c.real.get(tuple(lv))
+                if real is None or real.get("deadlock") or real.get("crash"):
+                    continue
+                n, w = lv[0], c.idle
+                counts = [o["n"] for o in real["outs"]]
+                exp = max(0, n - w)
+                rel = "short" if n <= w else "long"
+                replay = {"pipe": c.pipe, "cfg": c.cfg, "cap": c.cap, "lens": lv, "idle": w, "real_counts": counts, "model": None}
+                if len(set(counts)) > 1:
+                    longer = [i for i, k in enumerate(counts) if k > min(counts)]
+                    V.violation({"pipe": c.pipe, "symptom": "unequal-outputs", "len": rel, "longer": str(longer)},
+                                "%s n=%d: outputs have different lengths %s (declared warm-up %d)" % (c.key(), n, counts, w), replay)
+                elif any(k != exp for k in counts):
+                    V.violation({"pipe": c.pipe, "symptom": "extra-values" if counts[0] > exp else "missing-values", "len": rel},
+                                "%s n=%d: emits %s values, declared warm-up %d requires %d" % (c.key(), n, counts, w, exp), replay)
             continue
         cov.add_tlc(c.tlc)
         cov.instances += 1
